@@ -6,7 +6,7 @@ D  TLC exhaustive on the static configurations spec/MC_Vlan_*.cfg (one plain net
    the 1 % / 50 % / 100 % thresholds; two IP networks (10.0.0.0/25, 10.0.0.128/25) + IPRouter with two nodes each and a
    spare node with another broadcast address; three IP networks) against the 29 step formulas and 3 state formulas of
    Vlan.tla.  Each named deviation (SendByReference, BcastExcludesByAddress, RaiseCutsDelivery) must make TLC find a
-   violation (vacuity check, five configurations).
+   violation (vacuity check, six configurations).
 R  TLC dumps the labelled state graph of further configurations, generated with the deviation flags OBSERVED on the tree
    under test (three probes); an edge cover of each graph is executed on real Network / Node / IPNetwork / IPNode /
    IPRouter objects: a recording client is bound on top of every node (bacpypes.comm.bind), the scheduled process_pdu calls
@@ -50,7 +50,7 @@ DEVIATIONS = ["SendByReference", "BcastExcludesByAddress", "RaiseCutsDelivery"]
 INTENDED = {k: False for k in DEVIATIONS}
 STATIC_OK = ["lan", "raise", "lossy", "ip", "ipraise", "ip3"]
 STATIC_DEV = [("dev_ref", "SendByReference"), ("dev_bcast", "BcastExcludesByAddress"), ("dev_bcast_ip", "BcastExcludesByAddress"),
-              ("dev_raise", "RaiseCutsDelivery"), ("dev_raise_ip", "RaiseCutsDelivery")]
+              ("dev_raise", "RaiseCutsDelivery"), ("dev_raise_ip", "RaiseCutsDelivery"), ("dev_raise_route", "RaiseCutsDelivery")]
 PORT = 47808
 HANGS = [0]
 # the formulas each named deviation can falsify (used to NAME the cause of a failure at a step that shows several of them)
